@@ -91,7 +91,7 @@ const (
 	MaxMeasurementLength = MaxMeasurementLengthWithVersion - MeasurementVersionLength
 
 	MaxTagNameLength   = 255
-	MaxTagValueLength  = 64 * 1024
+	MaxTagValueLength  = 64*1024 - 1 // the row codec (FastMarshalBinary) stores the length in 16 bits
 	MaxFieldNameLength = 255
 	// No explicit field value length
 )
